@@ -165,6 +165,78 @@ func c04Disengage(run *PropRun) {
 }
 
 // stripPadding removes terminfo padding ($<..>) the way TPuts does for well-formed specifications.
+// c04TtyLifecycle: the parts of "the Tty is driven in contract order" that are facts about WHERE the calls are: Close
+// is called in finalize only, finalize is reached from finish only and finish runs through sync.Once (so Close happens
+// at Fini, once); Stop is called in disengage only and Start in engage only.
+func c04TtyLifecycle(run *PropRun) {
+	e := run.Eng
+	sp := e.SPkgs[modPath]
+	tm := sp.Type("tScreen")
+	if tm == nil {
+		panic(VerErr{"UNDECIDED: tScreen not found"})
+	}
+	named := tm.Type().(*types.Named)
+	ms := e.Prog.MethodSets.MethodSet(types.NewPointer(named))
+	where := map[string]map[string]bool{} // tty method -> functions that invoke it
+	callers := map[string]map[string]bool{}
+	var visit func(fn *ssa.Function, top string)
+	visit = func(fn *ssa.Function, top string) {
+		for _, b := range fn.Blocks {
+			for _, in := range b.Instrs {
+				c, ok := in.(ssa.CallInstruction)
+				if !ok {
+					continue
+				}
+				cc := c.Common()
+				if cc.IsInvoke() {
+					if nt, ok := cc.Value.Type().(*types.Named); ok && nt.Obj().Name() == "Tty" {
+						if where[cc.Method.Name()] == nil {
+							where[cc.Method.Name()] = map[string]bool{}
+						}
+						where[cc.Method.Name()][top] = true
+					}
+				} else if callee := cc.StaticCallee(); callee != nil && callee.Pkg != nil && callee.Pkg.Pkg.Path() == modPath {
+					if callers[callee.Name()] == nil {
+						callers[callee.Name()] = map[string]bool{}
+					}
+					callers[callee.Name()][top] = true
+				}
+			}
+		}
+		for _, af := range fn.AnonFuncs {
+			visit(af, top)
+		}
+	}
+	for i := 0; i < ms.Len(); i++ {
+		fn := e.Prog.MethodValue(ms.At(i))
+		if fn != nil && fn.Pkg != nil && fn.Pkg.Pkg.Path() == modPath && fn.Synthetic == "" {
+			visit(fn, fn.Name())
+		}
+	}
+	only := func(m map[string]bool, names ...string) bool {
+		if len(m) == 0 {
+			return false
+		}
+		for k := range m {
+			ok := false
+			for _, n := range names {
+				if k == n {
+					ok = true
+				}
+			}
+			if !ok {
+				return false
+			}
+		}
+		return true
+	}
+	run.AddObligation("tScreen/tty-close-only-in-finalize", "discipline", BoolT(only(where["Close"], "finalize")), fmt.Sprintf("Tty.Close is called in finalize only (found in %v)", keysOf(where["Close"])))
+	run.AddObligation("tScreen/finalize-only-from-finish", "discipline", BoolT(only(callers["finalize"], "finish")), fmt.Sprintf("finalize is called from finish only (callers %v)", keysOf(callers["finalize"])))
+	run.AddObligation("tScreen/finish-only-through-once", "discipline", BoolT(onlyThroughOnce(e, e.FindFunc(modPath+".(*tScreen).finish"))), "finish runs only through sync.Once: the tty is closed at Fini and at most once")
+	run.AddObligation("tScreen/tty-stop-only-in-disengage", "discipline", BoolT(only(where["Stop"], "disengage")), fmt.Sprintf("Tty.Stop is called in disengage only (found in %v)", keysOf(where["Stop"])))
+	run.AddObligation("tScreen/tty-start-only-in-engage", "discipline", BoolT(only(where["Start"], "engage")), fmt.Sprintf("Tty.Start is called in engage only (found in %v)", keysOf(where["Start"])))
+}
+
 func stripPadding(s string) string {
 	for {
 		i := strings.Index(s, "$<")
